@@ -172,6 +172,37 @@ func vary(r *gen.RNG, groups [][]jop, hs []ref.Hunk, kind int, prof gen.Profile)
 		}
 		cp[j] = out
 		return cp, "onto-predecessor-index", true
+	case 9:
+		// one context test moved to a neighbouring index (its value unchanged), optionally with the other context
+		// test dropped: the test no longer guards the element next to the edit. jd may refuse; if it applies, RFC must agree
+		if !isList {
+			return cp, "", false
+		}
+		var ctx []int
+		for i := range g {
+			if isContextTest(g, i) {
+				ctx = append(ctx, i)
+			}
+		}
+		if len(ctx) == 0 {
+			return cp, "", false
+		}
+		i := gen.Pick(r, ctx)
+		pre, tok := lastTok(g[i].Path)
+		n, err := strconv.Atoi(tok)
+		delta := gen.Pick(r, []int{-1, 1, -2, 2})
+		if err != nil || n+delta < 0 {
+			return cp, "", false
+		}
+		g[i].Path = pre + strconv.Itoa(n+delta)
+		if len(ctx) == 2 && r.Chance(0.4) {
+			other := ctx[0]
+			if other == i {
+				other = ctx[1]
+			}
+			cp[k] = append(append([]jop{}, g[:other]...), g[other+1:]...)
+		}
+		return cp, "context-test-moved", true
 	case 6:
 		// non-canonical array index tokens: RFC 6901 rejects all of them
 		if !isList {
@@ -358,7 +389,7 @@ func init() {
 			"same RFC 6902 reading of root replacement as C09 (DESIGN 5.9)",
 		},
 	}
-	for kind, name := range []string{"as-is", "drop-hunk", "drop-context-tests", "change-value", "shift-indices", "append-token", "non-canonical-index", "compound", "onto-predecessor-index"} {
+	for kind, name := range []string{"as-is", "drop-hunk", "drop-context-tests", "change-value", "shift-indices", "append-token", "non-canonical-index", "compound", "onto-predecessor-index", "context-test-moved"} {
 		kind := kind
 		p.Strata = append(p.Strata, mon.Stratum{
 			Name: "variation/" + name,
